@@ -126,6 +126,7 @@ def specs():
     add("Quaternion.__sub__", lambda p, q: np.asarray(Quaternion(p) - q), lambda a: [a.q(), a.q()])
     add("Quaternion.from_DCM", lambda R: Quaternion().from_DCM(R), lambda a: [a.R()])
     add("Quaternion.from_rpy", lambda x: Quaternion().from_rpy(x), lambda a: [a.ang()])
+    add("Quaternion.from_angles", lambda x: Quaternion().from_angles(x), lambda a: [a.ang()])
     add("Quaternion.ode", lambda q, w: Quaternion(q).ode(w), lambda a: [a.q(), a.v()])
     add("Quaternion.to_DCM/to_angles/to_axang", lambda q: (Quaternion(q).to_DCM(), Quaternion(q).to_angles(), Quaternion(q).to_axang()[0]), lambda a: [a.q()])
     add("QuaternionArray(Q)", lambda Q: np.asarray(QuaternionArray(Q)), lambda a: [a.q(5)])
@@ -220,6 +221,10 @@ def specs():
     add("EKF.update[IMU]", lambda q, g, x: F.EKF().update(q, g, x), qga)
     add("UKF.update", lambda q, g, x: F.UKF().update(q, g, x), qga)
     add("UKF(P=)", lambda g, x, P: F.UKF(g[:3], x[:3], P=P).Q, lambda a: ga(a) + [np.eye(4) * 0.01])
+    add("UKF(P=)[singular]", lambda g, x, P: F.UKF(g[:3], x[:3], P=P).Q, lambda a: ga(a) + [np.diag([0.0, 0.01, 0.01, 0.01])])
+    add("UKF.compute_sigma_points", lambda q, P: F.UKF().compute_sigma_points(q, P), lambda a: [a.qu(), np.eye(4) * 0.01])
+    add("UKF.compute_sigma_points[singular]", lambda q, P: F.UKF().compute_sigma_points(q, P), lambda a: [a.qu(), np.diag([0.0, 0.01, 0.01, 0.01])])
+    add("UKF.compute_sigma_points[zero]", lambda q, P: F.UKF().compute_sigma_points(q, P), lambda a: [a.qu(), np.zeros((4, 4))])
     add("Fourati", lambda g, x, y: F.Fourati(g, x, y).Q, gam)
     add("Fourati.update", lambda q, g, x, y: F.Fourati().update(q, g, x, y), qgam)
     add("ROLEQ", lambda g, x, y: F.ROLEQ(g, x, y).Q, gam)
@@ -269,12 +274,13 @@ def specs():
         same(lab + ".ode", mk, lambda X, w: X.ode(w), lambda a: [a.q(), a.v()])
         same(lab + ".mult_L/mult_R", mk, lambda X: (X.mult_L(), X.mult_R()), lambda a: [a.q()])
         same(lab + ".__pow__", mk, lambda X: (X ** 0.5, X ** -1.0, X ** 2), lambda a: [a.q()])
+        same(lab + ".to_list/to_array", mk, lambda X: (np.array(X.to_list(), float), X.to_array()), lambda a: [a.q()])
         same(lab + ".is_*", mk, lambda X: (float(X.is_pure()), float(X.is_real()), float(X.is_versor()), float(X.is_identity())), lambda a: [a.q()])
     QA = lambda Q: QuaternionArray(Q)                   # noqa: E731
     same("QuaternionArray.average", QA, lambda X: X.average(), lambda a: [a.qu(6)])
     same("QuaternionArray.average[weights]", QA, lambda X, w: X.average(weights=w), lambda a: [a.qu(6), a.rng.uniform(0.1, 2, 6)])
     same("QuaternionArray.average[span]", QA, lambda X: X.average(span=(1, 5)), lambda a: [a.qu(6)])
-    same("QuaternionArray.to_DCM/to_angles/conjugate", QA, lambda X: (X.to_DCM(), X.to_angles(), X.conjugate()), lambda a: [a.q(5)])
+    same("QuaternionArray.to_DCM/to_angles/conjugate", QA, lambda X: (X.to_DCM(), X.to_angles(), X.conjugate(), X.conj()), lambda a: [a.q(5)])
     same("QuaternionArray.angular_velocities", QA, lambda X: X.angular_velocities(0.01), lambda a: [a.qu(6)])
     same("QuaternionArray.rotate_by", QA, lambda X, q: X.rotate_by(q), lambda a: [a.q(5), a.q()])
     same("QuaternionArray.is_*", QA, lambda X: (X.is_pure().astype(float), X.is_real().astype(float), X.is_versor().astype(float), X.is_identity().astype(float)), lambda a: [a.q(5)])
@@ -287,7 +293,7 @@ def specs():
     for m_ in ("shepperd", "hughes", "chiaverini", "itzhack", "sarabandi"):
         same("DCM.to_quaternion[%s]" % m_, D, lambda X, m_=m_: X.to_quaternion(m_), lambda a: [a.R()])
     same("DCM.log/to_axisangle/to_rpy/to_angles", D, lambda X: (X.log, X.to_axisangle()[0], X.to_axisangle()[1], X.to_rpy(), X.to_angles()), lambda a: [a.R()])
-    same("DCM.inv/I/adj/det/fro", D, lambda X: (X.inv, X.I, X.adj, X.det, X.fro), lambda a: [a.R()])
+    same("DCM.inv/I/adj/det/fro", D, lambda X: (X.inv, X.I, X.adj, X.det, X.fro, X.adjugate, X.determinant, X.frobenius), lambda a: [a.R()])
     same("DCM.ode", D, lambda X, w: X.ode(w), lambda a: [a.R(), a.v()])
     for nm, mk_, est in (("Tilt", lambda: F.Tilt(), None), ("SAAM", lambda: F.SAAM(), None), ("FAMC", lambda: F.FAMC(), None), ("FQA", lambda: F.FQA(), None),
                          ("QUEST", lambda: F.QUEST(), None), ("Davenport", lambda: F.Davenport(), None), ("FLAE", lambda: F.FLAE(), None),
